@@ -228,7 +228,9 @@ def gen_loop_contracts(g, gb, outpath, log):
                 if k in ls:
                     c[k] = ls[k]
             entry[str(hits[0])] = c
-            names.update(ls.get("symbols", []))
+            names.update(n for n in ls.get("symbols", []) if n not in ls.get("symbols_full", {}))
+            if ls.get("symbols_full"):
+                c["_full"] = dict(ls["symbols_full"])      # per-loop explicit names (same identifier declared in two scopes)
         smap = []
         for n in sorted(names):
             cands = [s for s in allsyms if re.fullmatch(re.escape(fn) + r"(::\d+)*::" + re.escape(n), s)]
@@ -238,8 +240,13 @@ def gen_loop_contracts(g, gb, outpath, log):
         fe = {fn: [{"loop_id": k, **v} for k, v in entry.items()]}
         # cbmc format: {"functions":[{"f":[{"loop_id":"0","assigns":...,"invariants":...,"decreases":...,"symbol_map":...}]}]}
         for item in fe[fn]:
-            if smap:
-                item["symbol_map"] = ";".join(smap)
+            full = item.pop("_full", None) or {}
+            for n, f in full.items():
+                if f not in allsyms:
+                    raise Undecided(f"extraction break: symbol {f} not in the binary")
+            m = smap + [f"{n},{f}" for n, f in full.items()]
+            if m:
+                item["symbol_map"] = ";".join(m)
         res["functions"].append(fe)
     json.dump(res, open(outpath, "w"), indent=1)
 
